@@ -32,10 +32,14 @@ ASSUMPTIONS = [
     "a run whose observed overlap is < 2 is not counted as evidence (and the whole check is inconclusive if no run overlaps)",
     "inotifywait is an additional, independent event source; if it cannot start the audit-hook logs alone decide",
 ]
-QUICK_SHARDS = 2
+QUICK_SHARDS = 4
 THOROUGH_SHARDS = 4
 TIMEOUT = {"quick": 900, "thorough": 3 * 3600}
 HERE = os.path.dirname(os.path.dirname(os.path.dirname(os.path.abspath(__file__))))
+
+
+# (function of gffutils/create.py, number of leading distinct statements at which an importer is parked)
+PARK_FUNCTIONS = [("_update_relations", 30), ("_finalize", 10), ("_populate_from_lines", 8)]
 
 
 def setup(ctx):
@@ -74,6 +78,7 @@ def spawn(argsfile, tmpdir):
 
 _solo_cache = {}
 _PATTERNS = set()
+_PARKS = set()
 
 
 def solitary(ctx, root, text, from_string):
@@ -149,9 +154,26 @@ def imports(ctx, case):
                  "from_string": case["from_string"], "offset_ms": rng.randrange(0, 51), "barrier_timeout": 30}
             if case.get("failer") and case["barrier"]:
                 a["wait_marker"] = os.path.join(bdir, "failer.done")
+            if case.get("park"):
+                # importer 0 is parked at a statement of the named function until importer 1 has finished completely
+                if i == 0:
+                    a["park"] = {"function": case["park"][0], "line_index": case["park"][1], "marker": os.path.join(bdir, "neighbour.done")}
+                    a["offset_ms"] = 0
+                elif i == 1:
+                    a["done_marker"] = os.path.join(bdir, "neighbour.done")
+                    a["offset_ms"] = 150
             af = os.path.join(outdir, "args%d.json" % i)
             json.dump(a, open(af, "w"))
-            procs.append((i, a, spawn(af, tmpdir)))
+            if case.get("forkpool"):
+                procs.append((i, a, None))
+            else:
+                procs.append((i, a, spawn(af, tmpdir)))
+        if case.get("forkpool"):
+            # one parent interpreter that has already imported and used gffutils forks all N importers
+            pf = os.path.join(outdir, "args_pool.json")
+            json.dump({"role": "forkpool", "children": [a for _, a, _ in procs], "result": os.path.join(outdir, "res_pool.json")}, open(pf, "w"))
+            parent = spawn(pf, tmpdir)
+            procs = [(i, a, parent) for i, a, _ in procs]
         failer = None
         if case.get("failer") and case["barrier"]:
             finp = os.path.join(indir, "failing.gff")
@@ -214,7 +236,11 @@ def imports(ctx, case):
                 return
         touched = {}
         created, removed = {}, {}
-        for r in results:
+        logs = list(results)
+        if case.get("forkpool") and os.path.exists(os.path.join(outdir, "res_pool.json")):
+            # the forking parent's own warm-up import used the shared directory too
+            logs.append(json.load(open(os.path.join(outdir, "res_pool.json"))))
+        for r in logs:
             for ev, name, mode, t in r["log"]:
                 touched.setdefault(name, set()).add(r["pid"])
                 if ev == "mkstemp":
@@ -276,6 +302,21 @@ def imports(ctx, case):
                 pattern.append(len(b["release"]))
                 if b["timed_out"]:
                     ctx.mon("barrier timeouts")
+        if case.get("park"):
+            r0 = results[0]
+            case["_parked"] = bool(r0.get("parked_at_line")) and bool(r0.get("parked"))
+            if r0.get("parked_at_line"):
+                ctx.mon("importers parked at a statement while a neighbour ran a whole import")
+                if r0.get("parked"):
+                    ctx.mon("parks released by the neighbour's completion")
+                pk = (case["fmts"][0], case["park"][0], r0["parked_at_line"])
+                if pk not in _PARKS:
+                    _PARKS.add(pk)
+                    ctx.mon("distinct park points (format, function, source line)")
+            else:
+                ctx.mon("park point not reached (function has fewer statements)")
+        if case.get("forkpool"):
+            ctx.mon("runs with importers forked from one parent that had already used gffutils")
         case["_overlap"] = overlap
         case["_pattern"] = sorted(pattern)
         pk = (N, tuple(sorted(pattern)))
@@ -411,6 +452,41 @@ def run(ctx):
                     pat = case.pop("_pattern", [])
                     ctx.case((N, mix, variant, pat), ov >= 2, sample={"n": N, "mix": mix, "variant": variant, "max_overlap": ov},
                              cls="variant=%s" % variant)
+    # importers forked from one parent (multiprocessing's default start method on Linux)
+    for rep in range(reps):
+        for N in ([2, 4, 8] if ctx.tier == "quick" else [2, 4, 8, 16, 24]):
+            for mix in ("gff3+gtf", "different", "gtf"):
+                i += 1
+                if not ctx.mine(i):
+                    continue
+                if ctx.tier == "quick" and mix != "gff3+gtf" and N != 4:
+                    continue
+                fmts = {"different": ["gff3"], "gff3+gtf": ["gff3", "gtf"], "gtf": ["gtf"]}[mix]
+                case = {"kind": "imports", "n": N, "fmts": fmts, "seeds": [rng.randrange(10 ** 6) for _ in range(N)], "size": 3,
+                        "from_string": False, "barrier": True, "forkpool": True}
+                execute(ctx, case)
+                ov = case.pop("_overlap", 0)
+                pat = case.pop("_pattern", [])
+                ctx.case((N, mix, "forkpool", pat), ov >= 2, sample={"n": N, "mix": mix, "variant": "forkpool", "max_overlap": ov},
+                         cls="variant=forkpool")
+    # statement-level schedules: one importer parked at the k-th statement of a creation step while a neighbour import
+    # starts, runs and finishes
+    points = [(f, k) for f, kmax in PARK_FUNCTIONS for k in range(1, kmax + 1)]
+    for rep in range(1 if ctx.tier == "quick" else 2):
+        for fmt0, fmt1 in (("gtf", "gff3"), ("gff3", "gtf"), ("gtf", "gtf"), ("gff3", "gff3")):
+            for fn, k in points:
+                i += 1
+                if not ctx.mine(i):
+                    continue
+                if ctx.tier == "quick" and ((fmt0 == fmt1) or (k * 7 + ctx.seed + len(fn)) % 3):
+                    continue
+                case = {"kind": "imports", "n": 2, "fmts": [fmt0, fmt1], "seeds": [rng.randrange(10 ** 6) for _ in range(2)], "size": 3,
+                        "from_string": False, "barrier": False, "park": [fn, k]}
+                execute(ctx, case)
+                case.pop("_overlap", 0)
+                case.pop("_pattern", None)
+                ctx.case((fmt0, fmt1, fn, k), case.pop("_parked", False), sample={"parked": fmt0, "neighbour": fmt1, "function": fn, "statement": k},
+                         cls="variant=parked")
     if ctx.shard == 0:
         # imports large enough to cross internal batching thresholds (~2*10^5 second-level relations each)
         case = {"kind": "imports", "n": 2, "fmts": ["gff3"], "seeds": [rng.randrange(10 ** 6)], "size": 0, "from_string": False,
